@@ -357,12 +357,48 @@ pub fn run(repo: &Path, out: &Path) -> Result<(), String> {
                 let (n, m) = (v.as_u64().unwrap_or(0), e.get(k).and_then(|x| x.as_u64()).unwrap_or(0));
                 if n > m { grown.push(format!("{k} x{n} (was x{m})")); } else if n < m { shrunk += 1; }
             }
-            return (grown.is_empty(), format!("{} entries; grown: {:?}; shrunk: {}", c.len(), grown.iter().take(6).collect::<Vec<_>>(), shrunk));
+            // a renamed function: a new key whose file::owner and count equal those of a key that
+            // disappeared
+            let owner = |k: &str| -> String { let mut p: Vec<&str> = k.split("::").collect(); p.pop(); p.join("::") };
+            let mut gone: Vec<(String, u64)> = e.as_object().map(|m| m.iter().filter(|(k, _)| !c.contains_key(*k)).map(|(k, v)| (owner(k), v.as_u64().unwrap_or(0))).collect()).unwrap_or_default();
+            let mut renamed = 0;
+            let mut still: Vec<String> = vec![];
+            for (k, v) in c {
+                let (n, m) = (v.as_u64().unwrap_or(0), e.get(k).and_then(|x| x.as_u64()).unwrap_or(0));
+                if n > m {
+                    if m == 0 {
+                        if let Some(pos) = gone.iter().position(|(o, cnt)| *o == owner(k) && *cnt == n) { gone.remove(pos); renamed += 1; continue; }
+                    }
+                    still.push(format!("{k} x{n} (was x{m})"));
+                }
+            }
+            let _ = grown;
+            return (still.is_empty(), format!("{} entries; grown: {:?}; shrunk: {}; moved to a renamed function: {}", c.len(), still.iter().take(6).collect::<Vec<_>>(), shrunk, renamed));
         }
         let (a, b) = (tolist(&cur[name]), tolist(&exp[name]));
-        let added: Vec<&String> = a.difference(&b).collect();
-        let removed: Vec<&String> = b.difference(&a).collect();
-        (added.is_empty(), format!("{} entries; new: {:?}; gone (no obligation): {:?}", a.len(), added.iter().take(6).collect::<Vec<_>>(), removed.iter().take(6).collect::<Vec<_>>()))
+        let mut added: Vec<&String> = a.difference(&b).collect();
+        let mut removed: Vec<&String> = b.difference(&a).collect();
+        // a RENAMED function: an entry `file::owner::new_fn: detail` that replaces an entry
+        // `file::owner::old_fn: detail` with the same file, owner and detail is the same site
+        let split = |e: &str| -> Option<(String, String)> {
+            let (key, detail) = e.split_once(": ")?;
+            let mut parts: Vec<&str> = key.split("::").collect();
+            if parts.len() < 3 { return None; }
+            parts.pop();
+            Some((parts.join("::"), detail.trim_end_matches(|c: char| c == '#' || c.is_ascii_digit() || c == ' ').to_string()))
+        };
+        let mut renamed = 0;
+        added.retain(|x| {
+            if let Some(kx) = split(x) {
+                if let Some(pos) = removed.iter().position(|y| split(y).as_ref() == Some(&kx)) {
+                    removed.remove(pos);
+                    renamed += 1;
+                    return false;
+                }
+            }
+            true
+        });
+        (added.is_empty(), format!("{} entries; new: {:?}; gone (no obligation): {:?}; moved to a renamed function: {}", a.len(), added.iter().take(6).collect::<Vec<_>>(), removed.iter().take(6).collect::<Vec<_>>(), renamed))
     };
     let mk = |names: &[&str]| -> serde_json::Value {
         let mut m = serde_json::Map::new();
